@@ -22,7 +22,7 @@ def modules_of(spec):
     return ["a", "b"] + (["c"] if any(n["module"] == "c" for n in spec["nodes"]) else [])
 
 
-def gen_spec(rng, n_m=4, n_p=3, n_v=3, pkg="vpk", p_hidden=0.15, p_explicit=0.2, allow_cycles=True, n_u=1, pkg2=False, outside_helpers=False):
+def gen_spec(rng, n_m=4, n_p=3, n_v=3, pkg="vpk", p_hidden=0.15, p_explicit=0.2, allow_cycles=True, n_u=1, pkg2=False, outside_helpers=False, lambdas=False):
     nodes = []
     names = []
     unames = ["U%d" % i for i in range(n_u)]
@@ -39,16 +39,21 @@ def gen_spec(rng, n_m=4, n_p=3, n_v=3, pkg="vpk", p_hidden=0.15, p_explicit=0.2,
         nodes.append({"name": "G%d" % i, "kind": "v", "module": rng.choice("ab"), "vkind": kind, "value": val})
     for i in range(n_p):
         nodes.append({"name": "h%d" % i, "kind": "p", "module": rng.choice("ab")})
+    if lambdas:
+        # two helpers written as module-level lambdas (they share the qualified name "<lambda>")
+        lm = rng.choice("ab")
+        for i in range(2):
+            nodes.append({"name": "lam%d" % i, "kind": "p", "module": lm, "lam": True})
     for i in range(n_m):
         nodes.append({"name": "m%d" % i, "kind": "m", "module": rng.choice("ab")})
     if pkg2:
         # a second package with one module: a memento function there, its plain helper and a variable
         for n in nodes:
-            if n["kind"] != "u" and rng.random() < 0.3:
+            if n["kind"] != "u" and not n.get("lam") and rng.random() < 0.3:
                 n["module"] = "c"
         for kind, prefix in (("m", "m"), ("p", "h")):
             if not any(n["kind"] == kind and n["module"] == "c" for n in nodes):
-                cands = [n for n in nodes if n["kind"] == kind]
+                cands = [n for n in nodes if n["kind"] == kind and not n.get("lam")]
                 if len(cands) > 1:
                     rng.choice(cands[1:] if kind == "m" else cands)["module"] = "c"
     if pkg2 and outside_helpers:
@@ -64,6 +69,7 @@ def gen_spec(rng, n_m=4, n_p=3, n_v=3, pkg="vpk", p_hidden=0.15, p_explicit=0.2,
         n["sset"] = rng.sample(["0", "1", "2", "3", "4", "aa", "bcd", "e"], 4) if rng.random() < 0.35 else None
         n["nested"] = rng.randint(1, 4) if rng.random() < 0.35 else None
         n["pair"] = rng.sample(range(101, 140), 2) if rng.random() < 0.5 else None
+        n["objdefault"] = rng.random() < 0.25           # a default value of a type memento cannot encode (described by its type only)
         n["explicit"] = None
         n["hidden"] = None
         n["refs"] = []
@@ -83,6 +89,19 @@ def gen_spec(rng, n_m=4, n_p=3, n_v=3, pkg="vpk", p_hidden=0.15, p_explicit=0.2,
             elif rng.random() < 0.15 and c["kind"] in "mp":
                 form = "alias"
             n["refs"].append([c["name"], form])
+    for n in fns:
+        if n.get("lam"):
+            n["refs"] = []
+            for f_ in ("default", "kwdefault", "setconst", "tupconst", "sset", "pair", "nested"):
+                n[f_] = None
+            n["objdefault"] = False
+    lams = [n for n in fns if n.get("lam")]
+    if lams:
+        users = [n for n in fns if not n.get("lam") and n["module"] == lams[0]["module"]] or [n for n in fns if not n.get("lam") and n["module"] in "ab"]
+        u = rng.choice(users) if users else None
+        for l_ in (lams if u is not None else []):
+            if l_["name"] not in [r[0] for r in u["refs"]]:
+                u["refs"].append([l_["name"], "bare" if u["module"] == l_["module"] else "attr"])
     for n in fns:
         # a nested scope (lambda parameter) named like a module variable the function reads
         vrefs = [r[0] for r in n["refs"] if r[1] == "bare" and node({"nodes": nodes}, r[0])["kind"] == "v"]
@@ -105,9 +124,13 @@ def def_lines(spec, n):
     """source lines of one function definition, and the alias assignments it needs"""
     mod = n["module"]
     out, aliases = [], []
+    if n.get("lam"):
+        return ["%s = lambda x: x * 3 + %d if x > 0 else %d" % (n["name"], n["const"], n["const"]), ""], []
     params = ["x"]
     if n["default"] is not None:
         params.append("d=%d" % n["default"])
+    if n.get("objdefault"):
+        params.append("o=_CFG")
     if n["kwdefault"] is not None:
         params.append("*")
         params.append("kd=%d" % n["kwdefault"])
@@ -192,6 +215,14 @@ def render_module(spec, mod, order_rng=None, plain=False):
             else:
                 out.append("%s = %r" % (n["name"], n["value"]))
     out.append("")
+    out.append("import dataclasses")
+    out.append("@dataclasses.dataclass(frozen=True)")
+    out.append("class _Cfg:")
+    out.append("    fn: object = print")
+    out.append("    names: frozenset = frozenset({'a', 'bb', 'ccc', 'dddd'})")
+    out.append("    fmt: object = dataclasses.field(default_factory=lambda: (lambda v: v))")
+    out.append("_CFG = _Cfg()")
+    out.append("")
     out.append("def _vt(ev):")
     out.append("    t = getattr(builtins, '_vt', None)")
     out.append("    if t is not None:")
@@ -244,6 +275,8 @@ def edit(rng, spec):
     for _ in range(20):
         kind = rng.choice(EDITS)
         n = rng.choice(fns)
+        if n.get("lam") and kind not in ("const", "helper-const"):
+            continue                      # a lambda helper has a body constant and nothing else to edit
         if kind == "const" or (kind == "helper-const" and n["kind"] == "p"):
             n["const"] += rng.randint(1, 5)
             return s, "%s: body constant of %s" % (kind, n["name"])
